@@ -114,7 +114,7 @@ func h08a(w int, thorough bool) {
 }
 
 func H08eQ() { h08e(1) }
-func H08eT() { h08e(3) }
+func H08eT() { h08e(2) }
 
 // h08e: a reader fault after k bytes surfaces as that error and no results.
 func h08e(w int) {
